@@ -236,6 +236,25 @@ def c06_wrap_nested_child(n: int, np: int, m: int, a: int, b: int, j: int) -> bo
     return f._node.label == 100 + j
 
 
+def c06_wrap_fwd_block(n: int, a: int, b: int, c: int, d: int) -> bool:
+    """
+    pre: 1 <= n <= 5 and 0 <= a < b <= n and 0 <= c < d <= n
+    post: _
+    """
+    root = tree(n, 0, 0)
+    blk = Cursor.create(root)._child_block("body")[a:b]
+    new_root, fwd = blk._wrap(lambda body: M(500, body), "body")
+    obs = Cursor.create(root)._child_block("body")[c:d]
+    try:
+        f = fwd(obs)
+    except InvalidCursorError:
+        return True
+    got = []
+    for x in f:
+        got += [l for l in labels_under(x._node) if l != 500]
+    return got == list(range(c, d))
+
+
 # C06: move
 
 
